@@ -14,6 +14,8 @@ CHECKS = {
              text="For every collective API family and k=2..4 ranks each rank gets a class (valid, zero-length, one kind of invalid argument); a PMPI shim performs a shadow Allgather before every collective the library issues and after every API step, so differing collective sequences are detected deterministically (no timing), plus return-code and stored-data oracles. Quick samples the product; thorough enumerates family x class^2 for k=2. Two known findings (record-variable put and fill_var_rec with an error on a subset of ranks) are excluded by construction and probed by replay."),
  "C05": dict(level="exploration", section="4/C05", technique="property-based testing (Hypothesis) of multi-rank record-write histories against a per-rank record-count model, with the on-disk header field read back",
              text="Generated histories of collective, independent and nonblocking writes to 1-3 record variables by 2-4 (8 thorough) ranks, fills, partial waits, mode switches, syncs, redefinitions and reopen; after every call every rank's inq_dimlen and (at the documented points) the numrecs field in the file are compared with a model that tracks a per-rank view; final read-back proves the highest record is readable. Decides the property through timing-independent observables; MPI progress non-determinism is not explored."),
+ "C11": dict(level="fault_enumeration", section="4/C11", technique="fault enumeration: every MPI-IO data-transfer call of generated programs x rank x MPI error class, injected through a PMPI shim, with 'the error must surface' as oracle",
+             text="For Hypothesis-drawn small programs a fault-free run records every MPI_File_{read,write}[_at][_all] call per rank with its call site; then one run per (rank, call, error class) overrides that call's return value. The enclosing API call (or the completing wait) must report an error on that rank, every rank must return from it (collective matcher), nothing may crash. Quick: all calls x {IO, NO_SPACE, one rotating class}; thorough: all 7 classes for 40 programs per worker. One fault per run; open/set_view/sync/close faults are out of scope."),
 }
 NA_REASON = "check under construction in this session; not yet claimed"
 checks = []
